@@ -639,11 +639,28 @@ pub enum Flow {
 }
 
 
+thread_local! {
+    /// text produced by undocumented-format Debug impls during the current op: not compared with an
+    /// expected string, but part of the trace (it must not depend on layout, filling or build)
+    static SIDE_DIGEST: std::cell::Cell<u64> = const { std::cell::Cell::new(0) };
+}
+
+pub(crate) fn take_side_digest() -> u64 {
+    SIDE_DIGEST.with(|c| c.replace(0))
+}
+
 /// Format-agnostic oracle for the Debug output of iterators and drains (whose text the crate does
 /// not document): formatting may only look at the elements that are still to be produced.
 pub(crate) fn debug_touches_only(what: &str, remaining: &[u32], f: impl FnOnce() -> String) -> R<()> {
     let saved = ledger::take_touched();
     let text = f();
+    SIDE_DIGEST.with(|c| {
+        let mut h = c.get() ^ 0xcbf29ce484222325;
+        for b in text.bytes() {
+            h = (h ^ b as u64).wrapping_mul(0x100000001b3);
+        }
+        c.set(h)
+    });
     let touched = ledger::take_touched();
     ledger::with(|l| l.touched = saved);
     for t in touched {
